@@ -725,3 +725,58 @@ def rule_no_partial_ops(rep: Report, repo: Repo, rule: str) -> None:
                   f"a valid input can make this callback raise: {'; '.join(probs)[:200]}",
                   witness="set(V [=[\nmulti\nline\n]=])  (documented)")
     rep.floor(rule, 10, "callbacks and processors")
+
+
+# ----------------------------------------------------------------------
+def rule_module_name_trim(rep: Report, repo: Repo, rule: str) -> None:
+    """C04-R5 (the part of the CRLF clause that is visible in the code): the only single-line, length-sensitive sink fed from
+    doccomment text is the '@module' name (it becomes the page title, whose adornment has the title's length); the name must be
+    trimmed by an operation that also removes a carriage return."""
+    rep.rule(rule, "the '@module' name (-> page title and heading length) is trimmed of all surrounding whitespace including '\\r': "
+                   "str.strip() without arguments, a character set containing '\\r', or a regex using \\s")
+    lm = listener_model(repo)
+    n = 0
+    for r in lm.rows("MODULE", "-"):
+        st = r.outcome.state
+        for e in r.outcome.effects:
+            if e[0] == "push" and e[1] == lm.entries:
+                ob = st.obj(e[2])
+                if ob is None:
+                    continue
+                nm = ob["fields"].get("name")
+                n += 1
+                ok, why = _trims_cr(nm)
+                rep.check(ok, rule, f"{AGG}:{lm.cls}.enterDocumented_module", f"name = {show(nm)[:110]}",
+                          f"the module name keeps a trailing carriage return in a CRLF file ({why}): the title is one character longer, "
+                          f"its over-/underline too, and title and module directive contain a stray CR",
+                          witness="CRLF file starting with '#[[[ @module my.name'")
+    rep.floor(rule, 1, "module name binding")
+
+
+def _trims_cr(t) -> Tuple[bool, str]:
+    """Does the outermost trimming applied to the name remove '\r'?"""
+    seen = []
+
+    def walk(x):
+        if isinstance(x, tuple) and x:
+            if x[0] == "call" and x[1][0] == "attr" and x[1][2] in ("strip", "rstrip"):
+                seen.append(("strip", x[2]))
+            if x[0] == "call" and x[1][0] == "global" and x[1][1] in ("re.sub", "re.match", "re.search", "re.fullmatch") and x[2] \
+                    and is_const(x[2][0]):
+                seen.append(("re", x[2][0][1]))
+            if x[0] == "call" and x[1][0] == "attr" and x[1][2] == "split" and not x[2]:
+                seen.append(("split", ()))
+            for y in x:
+                if isinstance(y, tuple):
+                    walk(y)
+    walk(t)
+    if not seen:
+        return False, "the name is not trimmed at all"
+    for kind, arg in seen:
+        if kind == "strip" and (not arg or (is_const(arg[0]) and isinstance(arg[0][1], str) and "\r" in arg[0][1])):
+            return True, ""
+        if kind == "split":
+            return True, ""
+        if kind == "re" and isinstance(arg, str) and ("\\s" in arg or "\\r" in arg or "\r" in arg):
+            return True, ""
+    return False, "it is trimmed of blanks/tabs only: " + "; ".join(f"{k}({a if k == 're' else [show(z) for z in a]})" for k, a in seen)[:100]
